@@ -1,5 +1,5 @@
-(** Extraction of the C18 finalize model (Det/Finalize.v).  ExtrOcamlBasic only. *)
+(** Extraction of the C18 finalize model (Det/Finalize.v, Det/ConverterModel.v).  ExtrOcamlBasic only. *)
 From Coq Require Import Extraction ExtrOcamlBasic.
-From Pi2 Require Import Det.Finalize.
+From Pi2 Require Import Det.Finalize Det.ConverterModel.
 Extraction Language OCaml.
-Extraction "det_model.ml" finalize ord_id ord_rev ord_rot memo_decision.
+Extraction "det_model.ml" finalize ord_id ord_rev ord_rot memo_decision sort_str metavars_in_order unlink_all.
